@@ -3,6 +3,7 @@
 package memory
 
 import (
+	"math"
 	"sync"
 	"time"
 
@@ -66,7 +67,8 @@ func (s *Storage) Set(key string, val []byte, exp time.Duration) error {
 
 	var expire uint32
 	if exp != 0 {
-		expire = uint32(exp.Seconds()) + utils.Timestamp()
+		// saturate: a very long lifetime must not wrap round into the past
+		expire = uint32(min(uint64(exp.Seconds())+uint64(utils.Timestamp()), math.MaxUint32))
 	}
 
 	e := entry{data: val, expiry: expire}
